@@ -377,6 +377,26 @@ func runKeys(rng *rand.Rand, n int, out *Out, args []string) {
 			_, err := rf.Decrypt(w)
 			out.Oracle(err == wallet.ErrWrongPassword, "wrong-password-accepted", M{"len": len(w)})
 		}
+		// the same key-file object again, after successful and failed attempts: decrypting is an observation, it must
+		// not change the key file (still the same entropy with the right password; written again it is the same document)
+		again, err := rf.Decrypt(pw)
+		out.Oracle(err == nil && again != nil && bytes.Equal(again.Entropy, entropy), "keyfile-decrypts-again-after-other-attempts", M{"size": size, "err": fmt.Sprint(err)})
+		rf.Path = filepath.Join(dir, fmt.Sprintf("kf%d-rewritten.json", i))
+		if err := rf.Write(); err == nil {
+			data2, _ := os.ReadFile(rf.Path)
+			var d1, d2 map[string]interface{}
+			json.Unmarshal(data, &d1)
+			json.Unmarshal(data2, &d2)
+			j1, _ := json.Marshal(d1["crypto"])
+			j2, _ := json.Marshal(d2["crypto"])
+			out.Oracle(bytes.Equal(j1, j2), "keyfile-unchanged-by-decrypt", M{"size": size})
+			rf2, err := wallet.ReadKeyFile(rf.Path)
+			var ks3 *wallet.KeyStore
+			if err == nil {
+				ks3, err = rf2.Decrypt(pw)
+			}
+			out.Oracle(err == nil && ks3 != nil && bytes.Equal(ks3.Entropy, entropy), "keyfile-roundtrip-after-rewrite", M{"size": size, "err": fmt.Sprint(err)})
+		}
 		// single-bit corruptions of every byte of ciphertext, nonce, salt (in the file)
 		fields := []struct {
 			name string
